@@ -54,6 +54,18 @@ PROPS = {
             leg("atomic", "c05-atomic", "rel", quick=2, thorough=8),
         ],
     ),
+    "C16": dict(
+        level="exploration",
+        technique="runtime monitor: differential execution - the same frame through both RESP decoders and both command parsers (Ok/Err, Debug rendering, error text, panics); the same command sent directly and through EVAL redis.call / redis.pcall on twin executors (reply modulo the RESP-Lua-RESP conversion, visible keyspace)",
+        level_text="Command names and option keywords are scraped at run time from the two parser sources and the Lua bridge (for input generation only). Parser leg: per name, every frame over the palette {a, 1, -1} plus that name's keywords is enumerated up to the largest length with <= 60k frames, then random frames add random letter case, arities 0..8, numeric arguments at and beyond i64/isize/u64 limits, empty and non-UTF-8 arguments, integer and nil elements; each frame is decoded by RespParser and RespCodec and parsed by Command::from_resp and Command::from_resp_zero_copy - any Ok/Err disagreement, different Debug rendering, different error text or panic is a violation. Script leg: every command the direct path accepts, in 3 keyspace states, is executed directly and through EVAL 'return redis.call/pcall(ARGV...)' on twin executors; the reply after the documented conversion and the visible keyspace must agree.",
+        level_note="the oracle is the disagreement itself (no model); both-error pairs in the script leg count as agreement without comparing texts; SPOP/RANDOMKEY/INFO replies are not compared, set/hash/KEYS/SCAN replies as multisets; connection-, transaction- and scripting-control commands are excluded from the script leg; needs the lua feature",
+        rule="case = one RESP frame through both parsers, or one (argv, keyspace state, call|pcall) pair run directly and scripted; distinct_nontrivial = distinct (name, arity, option keywords present, outcome kind per parser) tuples + distinct (name, token-class vector, state, mode, direct errored, scripted errored) tuples",
+        assumptions=COMMON_ASSUME,
+        legs=[
+            leg("parsers", "c16-parsers", "rel", quick=2, thorough=16),
+            leg("script", "c16-script", "rel", quick=2, thorough=16),
+        ],
+    ),
     "C17": dict(
         level="exploration",
         technique="runtime monitor: visible-keyspace snapshot (through the public command set) before and after every command that replies with an error or is classified read-only, over generated sequences of the full command set",
@@ -72,6 +84,18 @@ PROPS = {
         exhaustive_note="exhaustive over all values / pairs / triples of each explored pool only",
         assumptions=COMMON_ASSUME,
         legs=[leg("laws", "c07-laws", "rel", quick=2, thorough=16)],
+    ),
+    "C18": dict(
+        level="exploration",
+        technique="runtime monitor: the same replicated state built independently several times (different insertion / merge orders, other processes) must give equal digests, one-observable near-miss pairs must give different ones; digest-driven sync between two replicas checked against merge(prior_a, prior_b) within the round bound",
+        level_text="Digest leg: a state recipe A is built once, and A and B are rebuilt four more times in-process and twice in child processes (fresh HashMap seeds) through plain inserts, pre-sized and churned maps, apply_remote_delta merge histories and sync responses; the projection pi decides whether the pair is equal and in which observable it differs, and that verdict must match StateDigest::differs_from and divergent_buckets per differing key. The stream is an exhaustive grid of ~95 one-observable near-misses (expiry, vector clock, rf, kind, hash fields and stamps, counter entries, set members, OR-set tags, outer stamp...) x 5 key contexts (1 key; 40 single-occupancy; 12 keys in one depth-8 bucket; 30 keys at depth 3; 120 mixed) plus random equal / unequal pairs of 1-400 keys at depth 2,3,4,8. Sync leg: two prior states (shared keys, keys only on one side, concurrent values, kind mismatches, same value with different outer replica) are synced through MultiNodeSimulation (partition, heal, run_anti_entropy_sync) and through the AntiEntropyManager request/response API with limit in {1,2,5,1000}; after ceil(N/limit)+2 rounds every key of an initially divergent bucket must equal merge(own prior, peer prior) on both sides.",
+        level_note="pi (harness) lists everything a client, a peer or a digest can observe; pairs differing only in an LWW register's inner stamp are counted, not judged; the code under test randomises per HashMap, so raw counters vary slightly between runs of one seed, the signatures do not",
+        rule="case = one pair of state recipes (each side rebuilt 5 times in-process and in 2 child processes) or one two-replica sync scenario; distinct_nontrivial = distinct (pair class, pi verdict/observable, bucket occupancy, depth, build mode, value kinds, key-count class) + distinct (site, depth, limit, occupancy class, limit<scope, scope size class)",
+        assumptions=COMMON_ASSUME,
+        legs=[
+            leg("digest", "c18-digest", "rel", quick=2, thorough=16),
+            leg("sync", "c18-sync", "rel", quick=2, thorough=16),
+        ],
     ),
     "C20": dict(
         level="exploration",
